@@ -70,6 +70,10 @@ CHECKS = {
             "CASE with 0-2 WHENs, all conflict-handler call sequences up to length 4, RETURNING argument kinds x statement kinds, repeated one-shot calls) are enumerated "
             "completely against the documented exception types.",
             "Trusted: the availability model and the expected-exception table in pbt/props/c14.py (taken from the guards' messages and the error tests)."),
+    "C10": ("Hypothesis-generated inner queries (aliased terms in every clause, nesting, set operations, pagination, values) x 11 embedding positions x 6 classes x inline/parameterised; contiguous-token-subsequence oracle over the reference lexer",
+            "The stand-alone token stream of the inner query must occur in the outer statement as a contiguous run (placeholders compared by kind), bracketed exactly "
+            "where the position requires, followed by an alias only at FROM/JOIN/select-list positions; INSERT..SELECT must be the INSERT head plus the SELECT unchanged.",
+            "Trusted: reference lexers; the position templates in pbt/props/c10.py."),
 }
 
 NOT_BUILT = {}
